@@ -83,6 +83,21 @@ def run(ctx, pid):
         src, der = build(st['pre']['src'], tok), build(st['pre']['der'], tok)
         if src is None:
             continue
+        # a derived list is obtained from the source by a real slice / copy whenever the pre-state allows it, so that
+        # storage shared between the two shows in the step that follows (edits of one may never appear in the other)
+        ps, pd = st['pre']['src'], st['pre']['der']
+        if pd != ['-']:
+            cands = [(lo, lo + len(pd)) for lo in range(len(ps) - len(pd) + 1) if ps[lo:lo + len(pd)] == pd]
+            if cands:
+                lo, hi = cands[n % len(cands)]
+                how = n % 4
+                if (lo, hi) == (0, len(ps)):
+                    der = [lambda: src[:], lambda: src[0:hi], lambda: src.copy(), lambda: src[0:hi + 5]][how]()
+                else:
+                    der = src[lo:hi] if how % 2 or not (0 < lo < len(ps)) else src[lo - len(ps):hi]
+                if proj(der, tok) != pd:
+                    ctx.violation(f'{pid}|list|state|slice|', f'slicing {ps} [{lo}:{hi}] gives {proj(der, tok)}', {'pre': st['pre']})
+                    continue
         src2, der2, out = apply(src, der, st['act'], tok)
         got = (proj(src2, tok), proj(der2, tok))
         want = (st['src'], st['der'])
